@@ -15,6 +15,8 @@ import GmQuic.Gen.QSpans
   `data` (object);
 * `emit_no_panic_iff_context`, `emit_without_context_never_panics`, `emit_never_panics_under_repo_spans`,
   `event_sites_custom_fields_not_reserved`: the `event!` expansion and the generated call-site tables.
+* `new_trace_never_panics_in_caller`, `emit_never_panics_under_repo_spans_and_failing_storage`: failing storages of the
+  repo's own loggers (shape extracted from handy.rs) never surface in the code that logs.
 Observational purity (same behaviour with logging on / off / filtered) is NOT a theorem; see docs/C20.md.
 -/
 namespace GmQuic.Props.C20
@@ -237,6 +239,59 @@ theorem emit_never_panics_under_repo_spans
         cases hp2 : p.2 <;> simp [hp2] at hf2
         simp [de]
   exact key stack [] hs (by intro p _ j hj; simp [lookup] at hj)
+
+/-! ### failing storages -/
+
+/-- the shape of the repo's sequential logger over a storage `T`, as extracted from qevent/src/telemetry/handy.rs -/
+def repoLoggerShape (eager : Bool) : LoggerShape :=
+  { joinEager := eager, awaitsInTask := seqLoggerAwaitsInTask, callerFallible := seqLoggerCallerFallible,
+    sendErrorIgnored := senderEmitIgnoresClosedChannel }
+
+/-- Whatever the storage does (file cannot be created, write / flush errors), `new_trace` of the repo's logger over ANY
+of the repo's storages never panics in its caller: the failure stays in the writer task. -/
+theorem new_trace_never_panics_in_caller (p : String × Bool) (hp : p ∈ storageJoinEager) (st : StorageResult) :
+    (newTrace (repoLoggerShape p.2) st).callerPanics = false := by
+  have h : (storageJoinEager.all fun p => [StorageResult.ok, .openFails, .writeFails, .flushFails].all fun st =>
+      !(newTrace (repoLoggerShape p.2) st).callerPanics) = true := by decide +kernel
+  rw [List.all_eq_true] at h
+  have h' := h p hp
+  simp only [List.all_cons, List.all_nil, Bool.and_true, Bool.and_eq_true, Bool.not_eq_true'] at h'
+  cases st
+  · exact h'.1
+  · exact h'.2.1
+  · exact h'.2.2.1
+  · exact h'.2.2.2
+
+/-- … and `event!` under any nesting of the repo's `span!` sites below such a trace emits exactly the event it emits with a
+working storage: storage failure is invisible to the code that logs (`emit_never_panics_under_repo_spans` extended to
+failing storages). -/
+theorem emit_never_panics_under_repo_spans_and_failing_storage
+    (p : String × Bool) (hp : p ∈ storageJoinEager) (st : StorageResult)
+    (stack : List ((String × String × List (String × String)) × (String → String)))
+    (hs : ∀ e ∈ stack, e.1 ∈ spanSites)
+    (time : String) (i : Nat) (data : Val) (custom : Kvs) :
+    ∃ ev, emitLogged (repoLoggerShape p.2) st knownLoads
+        (stack.foldl (fun m e => enter m (e.1.2.2.map fun f => (f.1, Json.str (e.2 f.1)))) []) time i data custom = .emitted ev ∧
+      emitLogged (repoLoggerShape p.2) .ok knownLoads
+        (stack.foldl (fun m e => enter m (e.1.2.2.map fun f => (f.1, Json.str (e.2 f.1)))) []) time i data custom = .emitted ev := by
+  obtain ⟨ev, hev⟩ := emit_never_panics_under_repo_spans stack hs time i data custom
+  have h1 := new_trace_never_panics_in_caller p hp st
+  have h2 := new_trace_never_panics_in_caller p hp .ok
+  have h3 : senderEmitIgnoresClosedChannel = true := by decide
+  have h4 : (repoLoggerShape p.2).sendErrorIgnored = true := h3
+  refine ⟨ev, ?_, ?_⟩
+  · simp only [emitLogged, h1, h4]; simpa using hev
+  · simp only [emitLogged, h2, h4]; simpa using hev
+
+/-- the hypothesis is needed: a storage whose `join` does its fallible work eagerly panics in the caller -/
+theorem eager_storage_panics_in_caller :
+    (newTrace { joinEager := true, awaitsInTask := true, callerFallible := false, sendErrorIgnored := true } .openFails).callerPanics = true := by
+  decide
+
+/-- the unchanged code does lose the trace by a panic CONTAINED in the writer task when the file cannot be created
+(finding `logger-task-panic:qevent/src/telemetry/handy.rs`) -/
+theorem open_failure_panics_inside_writer_task :
+    (storageJoinEager.all fun p => (newTrace (repoLoggerShape p.2) .openFails).writer == .panicked) = true := by decide +kernel
 
 /-- names the `Event` struct itself writes at the top level of the JSON object -/
 def reservedNames : List String := match eventSchema with | .struct fs _ => allNames fs | _ => []
